@@ -264,7 +264,7 @@ def normalisers(fx):
     out = []
     for fn in fx.all_fns():
         ps = fn.f.get('params') or []
-        if len(ps) != 1 or fn.f.get('implicit') or not fn.file.startswith('src/gr_'):
+        if len(ps) != 1 or fn.f.get('implicit') or not fn.file.startswith('src/'):
             continue
         try:
             chain, _, tail = extract_chain(fn, ps[0]['vid'], 'return')
